@@ -151,7 +151,7 @@ Proof. destruct b; reflexivity. Qed.
 (* ------------------------------------------------------------------ base64 *)
 Lemma b64val_char : forall k, 0 <= k < 64 -> b64val (b64char k) = Some k.
 Proof.
-  intros k Hk. unfold b64char, b64val. bd; try (f_equal; lia); lia.
+  intros k Hk. unfold b64char. bd; unfold b64val; bd; try (f_equal; lia); lia.
 Qed.
 
 Lemma b64char_not_pad : forall k, 0 <= k < 64 -> (b64char k =? 61) = false.
